@@ -6,7 +6,13 @@ greedy spec (`Kodama/Lemmas/SpecPerm.lean`, property C11) needs.
 
 Which law discharges `LwSymm` for which generated formula (`Kodama/Generated/Method.lean`):
 
-* average   `add_comm` only (twice: numerator `sa*a + sb*b`, denominator `sa + sb`)
+* average   `add_comm` (twice: numerator `sa*a + sb*b`, denominator `sa + sb`) for the mean, AND
+            `OrderLaws.asymm` + `LtTrichotomy` for the clamp of the repaired formula
+            (`least := if a < b then a else b; if mean < least then least else mean`, the `fix:`
+            commit of the crate): `least` is a minimum written with one `<`, exactly as in single.
+            Before the fix `add_comm` alone was enough; with `CommLaws` alone the statement is now
+            false for an abstract `Num` (on order-equivalent, non-identical arguments such as `±0`
+            the two `least`s are different values).
 * weighted  `add_comm` only (`a + b`)
 * ward      `add_comm` only (twice: the outer sum of the numerator, and `sa + sb` in the denominator)
 * centroid  `add_comm` (`sa*a + sb*b`, `sa + sb`) AND `mul_comm` (`sa * sb`)
@@ -18,11 +24,12 @@ Which law discharges `LwSymm` for which generated formula (`Kodama/Generated/Met
 and `b*a` is the same value; the only caveat is which NaN *payload* is propagated when both
 operands are NaNs, which is implementation-defined).  `LtTrichotomy` is FALSE of IEEE floats
 (`+0`/`-0` are incomparable and different, and so is NaN against anything): for floats the
-single/complete instances are theorems about inputs on which it happens to hold.
+single/complete/average instances are theorems about inputs on which it happens to hold.
 No field law (associativity, distributivity, inverses, rounding) is used anywhere.
 -/
 import Kodama.Spec.Naive
 import Kodama.Laws
+import Kodama.Lemmas.AverageClamp
 namespace Kodama
 
 /-- `+` and `×` commute.  True of IEEE floats as operations on values; when both operands are
@@ -43,11 +50,13 @@ def LwSymm (α : Type) [Num α] (m : Method) : Prop :=
   ∀ (dax dbx dab : α) (sa sb sx : Nat),
     lw m dax dbx dab sa sb sx = lw m dbx dax dab sb sa sx
 
-/-- average: `add_comm` (numerator and denominator). -/
-theorem lwSymm_average (C : CommLaws α) : LwSymm α .average := by
+/-- average: `add_comm` (numerator and denominator of the mean); asymmetry of `<` and trichotomy
+for the clamp `if mean < least then least else mean`, `least := if a < b then a else b`. -/
+theorem lwSymm_average (L : OrderLaws α) (T : LtTrichotomy α) (C : CommLaws α) :
+    LwSymm α .average := by
   intro dax dbx dab sa sb sx
-  simp only [lw, Gen.average]
-  rw [C.add_comm (Num.mul (Num.ofNat sa) dax), C.add_comm (Num.ofNat sa : α)]
+  simp only [lw]
+  exact Gen.average_comm L T C.add_comm dax dbx sa sb
 
 /-- weighted: `add_comm`. -/
 theorem lwSymm_weighted (C : CommLaws α) : LwSymm α .weighted := by
@@ -75,13 +84,13 @@ theorem lwSymm_median (C : CommLaws α) : LwSymm α .median := by
   simp only [lw, Gen.median]
   rw [C.add_comm dax]
 
-/-- The five arithmetic formulas: commutativity of `+` (and of `×` for centroid only). -/
-theorem lwSymm_of_comm (C : CommLaws α) (m : Method) (hm : m ≠ .single ∧ m ≠ .complete) :
-    LwSymm α m := by
+/-- The four comparison-free formulas: commutativity of `+` (and of `×` for centroid only). -/
+theorem lwSymm_of_comm (C : CommLaws α) (m : Method)
+    (hm : m ≠ .single ∧ m ≠ .complete ∧ m ≠ .average) : LwSymm α m := by
   cases m with
   | single => exact absurd rfl hm.1
-  | complete => exact absurd rfl hm.2
-  | average => exact lwSymm_average C
+  | complete => exact absurd rfl hm.2.1
+  | average => exact absurd rfl hm.2.2
   | weighted => exact lwSymm_weighted C
   | ward => exact lwSymm_ward C
   | centroid => exact lwSymm_centroid C
@@ -113,7 +122,7 @@ theorem lwSymm_all (L : OrderLaws α) (T : LtTrichotomy α) (C : CommLaws α) (m
   cases m with
   | single => exact lwSymm_single L T
   | complete => exact lwSymm_complete L T
-  | average => exact lwSymm_average C
+  | average => exact lwSymm_average L T C
   | weighted => exact lwSymm_weighted C
   | ward => exact lwSymm_ward C
   | centroid => exact lwSymm_centroid C
